@@ -1329,15 +1329,20 @@ Definition P (l : list (list string)) : list (list (list Z)) := map (map s2z) l.
 (* Stream.send_data, one iteration of its loop:
    - it starts by awaiting write_ready (pc Top), then reads the window (pc CheckWindow);
    - window <= 0: clear window_updated, await it, and go round the loop again (the wait is re-checked);
-   - window > 0: chunk = min(window, max frame, rest); h2.send_data; data_to_send; transport.write --
-     no await anywhere after the window was read -- then either the function returns or it loops. *)
+   - window > 0: chunk = min(window, max frame, rest) with window and max frame read since the last
+     suspension point; h2.send_data; data_to_send; transport.write -- no await anywhere after the
+     window was read -- then either the function returns or it loops;
+   - whichever loop takes the back edge (`->loop`), what follows is again await write_ready and a fresh
+     read of the window (`->recheck`): nothing is decided on a window read before a suspension. *)
 Definition expected_send_data : list (list string) :=
   [ [ "await:write_ready"; "h2:window_read"; "window<=0";
-      "clear:window_updated(self)"; "await:window_updated(self)"; "->loop" ];
+      "clear:window_updated(self)"; "await:window_updated(self)";
+      "->loop"; "await:write_ready"; "h2:window_read"; "->recheck" ];
     [ "await:write_ready"; "h2:window_read"; "window>0"; "chunk:min{max_frame,other,window}";
       "h2:send_data"; "h2:data_to_send"; "transport:write(h2data)"; "->exit" ];
     [ "await:write_ready"; "h2:window_read"; "window>0"; "chunk:min{max_frame,other,window}";
-      "h2:send_data"; "h2:data_to_send"; "transport:write(h2data)"; "->loop" ] ]%string.
+      "h2:send_data"; "h2:data_to_send"; "transport:write(h2data)";
+      "->loop"; "await:write_ready"; "h2:window_read"; "->recheck" ] ]%string.
 
 (* process_window_updated: stream id 0 sets the event of EVERY registered stream; otherwise the event of
    the addressed stream, if it is registered *)
@@ -1379,9 +1384,12 @@ Fixpoint after (s : string) (p : list (list Z)) : list (list Z) :=
   match p with [] => [] | t :: r => if tok_is s t then r else after s r end.
 Definition has (s : string) (p : list (list Z)) : bool := existsb (tok_is s) p.
 
+(* the part of a path before its first back edge *)
+Fixpoint upto_loop (p : list (list Z)) : list (list Z) :=
+  match p with [] => [] | t :: r => if tok_is "->loop" t then [] else t :: upto_loop r end.
 (* (a) between reading the window and the h2 send + transport write there is no suspension point *)
 Definition no_await_after_window_read (p : list (list Z)) : bool :=
-  negb (has "h2:send_data" p) || negb (existsb is_await (after "h2:window_read" p)).
+  negb (has "h2:send_data" p) || negb (existsb is_await (after "h2:window_read" (upto_loop p))).
 (* (b) every h2.send_data is handed to the transport at once *)
 Fixpoint send_written_at_once (p : list (list Z)) : bool :=
   match p with
@@ -1398,16 +1406,23 @@ Definition waits_ok (p : list (list Z)) : bool :=
   match p with
   | w :: r =>
       tok_is "await:write_ready" w &&
-      forallb (fun t => negb (is_await t) || tok_is "await:window_updated(self)" t) r &&
+      forallb (fun t => negb (is_await t) || tok_is "await:window_updated(self)" t
+                        || tok_is "await:write_ready" t) r &&
       (negb (has "await:window_updated(self)" p) ||
        (match after "clear:window_updated(self)" p with
-        | a :: e :: [] => tok_is "await:window_updated(self)" a && tok_is "->loop" e
-        | _ => false end && has "window<=0" p && negb (has "h2:send_data" p)))
+        | a :: e :: _ => tok_is "await:window_updated(self)" a && tok_is "->loop" e
+        | _ => false end && has "window<=0" p && negb (has "h2:send_data" p))) &&
+      (* after any back edge: write_ready is awaited and the window read again before anything else *)
+      (negb (has "->loop" p) ||
+       match after "->loop" p with
+       | a :: b :: c :: [] => tok_is "await:write_ready" a && tok_is "h2:window_read" b && tok_is "->recheck" c
+       | _ => false end)
   | [] => false
   end.
 (* (d) a positive window is never waited on, a non-positive one never sent on *)
 Definition window_branches_ok (p : list (list Z)) : bool :=
-  (negb (has "window>0" p) || (has "h2:send_data" p && negb (has "clear:window_updated(self)" p))) &&
+  (negb (has "window>0" p) || (has "h2:send_data" p && negb (has "clear:window_updated(self)" p)
+                               && has "chunk:min{max_frame,other,window}" p)) &&
   (negb (has "window<=0" p) || negb (has "h2:send_data" p)) &&
   (has "window>0" p || has "window<=0" p).
 
